@@ -74,12 +74,13 @@ TECMP::CanPayload::Header* TECMP::CanPayload::getHeader()
 
 uint32_t TECMP::CanPayload::getCrc() const
 {
-    if (payloadData.size() <= sizeof(Header) + getHeader()->getDlc())
+    constexpr size_t crcSize = 3;
+    if (payloadData.size() < sizeof(Header) + getHeader()->getDlc() + crcSize)
         return 0;
 
     uint32_t result = 0;
     auto crcOffset = sizeof(Header) + getHeader()->getDlc();
     auto crcPtr = payloadData.data() + crcOffset;
-    memcpy((void*) &result, crcPtr, 3);
+    memcpy((void*) &result, crcPtr, crcSize);
     return result;
 }
